@@ -23,31 +23,8 @@ def rule_routing(ctx: Ctx, rule: str) -> None:
                    'stripped of exactly its first character, and to `positive` unchanged with the plain flags; each expansion is '
                    'handled once (seen set keyed by the expanded text)')
     repo = ctx.repo
-    for fn in ('translate', 'compile_pattern'):
-        fi = repo.func(WP, fn)
-        ifs = [n for n in walk_no_nested(fi.node) if isinstance(n, ast.If) and norm_src(n.test) == 'is_negative(expanded, flags)']
-        ok = len(ifs) == 1
-        det = 'routing test not found'
-        if ok:
-            n = ifs[0]
-            neg = [c for s in n.body for c in ast.walk(s) if isinstance(c, ast.Call) and norm_src(c.func) == 'negative.append']
-            pos = [c for s in n.orelse for c in ast.walk(s) if isinstance(c, ast.Call) and norm_src(c.func) == 'positive.append']
-
-            def inner_args(c: ast.Call) -> list[str]:
-                for x in ast.walk(c.args[0]):
-                    if isinstance(x, ast.Call) and norm_src(x.func) in ('WcParse', '_compile'):
-                        return [norm_src(a) for a in x.args]
-                return []
-            ok = len(neg) == 1 and len(pos) == 1 and inner_args(neg[0])[:1] == ['expanded[1:]'] and inner_args(pos[0]) == ['expanded', 'flags']
-            det = f'negative: {inner_args(neg[0]) if neg else None}; positive: {inner_args(pos[0]) if pos else None}'
-        ctx.ob(rule, f'{WP}:{fn}/routing', ok, repo.loc(WP, ifs[0] if ifs else fi.node),
-               'if is_negative(expanded, flags): negative ← X(expanded[1:], forced flags) else positive ← X(expanded, flags)', det,
-               witness="fnmatch('b', ['*', '!a'], flags=NEGATE) True; fnmatch('a', …) False")
-        seen = [n for n in walk_no_nested(fi.node) if isinstance(n, ast.If) and norm_src(n.test) == 'expanded not in seen']
-        oks = len(seen) == 1 and any(isinstance(s, ast.Expr) and norm_src(s.value) == 'seen.add(expanded)' for s in seen[0].body) and \
-            bool(ifs) and any(ifs[0] is x for x in ast.walk(seen[0]))
-        ctx.ob(rule, f'{WP}:{fn}/seen-set', oks, repo.loc(WP, seen[0] if seen else fi.node), 'if expanded not in seen: seen.add(expanded); route', str(oks),
-               witness='order or repetition of patterns never matters')
+    from . import pipeline
+    pipeline.rule_pipeline_loop(ctx, rule, which={'routing', 'seen-set'}, text=False)
 
 
 def rule_is_negative_table(ctx: Ctx, rule: str) -> None:
@@ -91,43 +68,68 @@ def rule_is_negative_table(ctx: Ctx, rule: str) -> None:
            witness="fnmatch('x', '!(a)', flags=NEGATE|EXTMATCH) is True: `!(` is an extended group, not an exclusion")
 
 
+def parse_patterns_tail(ctx: Ctx, rule: str, which: set[str]) -> None:
+    """Glob._parse_patterns after its loop (loop skipped): the NEGATEALL default and the NODIR exclusion, on call events."""
+    from .common import decided_bits, passes_through, tabulate_method
+    from ..symeval import BV, Opaque, focus, _tag
+    repo = ctx.repo
+    pp = repo.func('glob', 'Glob._parse_patterns')
+    GS = repo.const(WP, 'GLOBSTAR')
+    ev, paths = tabulate_method(repo, 'glob', 'Glob._parse_patterns', {'flags': BV('sflags')}, [Opaque('patterns'), Opaque('force_negate')],
+                                inline=False, loop_mode='skip')
+    bad_d, bad_n = [], []
+    for p in paths:
+        focus(p)
+        d = p.decisions
+        after = False
+        apps_p, apps_n = [], []
+        for e in p.events:
+            if e[0] == 'loop':
+                after = True
+            elif after and e[0] == 'call' and e[1] == 'self.pattern.append':
+                apps_p.append(e)
+            elif after and e[0] == 'call' and e[1] == 'self.npatterns.append':
+                apps_n.append(e)
+        want = d.get('self.pattern') is False and d.get('self.npatterns') is True and d.get('self.negateall') is True
+        undecided = [k for k in ('self.pattern', 'self.npatterns', 'self.negateall') if k not in d]
+        if undecided and apps_p:
+            bad_d.append(f'default appended without testing {undecided}')
+        if len(apps_p) != (1 if want else 0):
+            bad_d.append(f'pattern={d.get("self.pattern")} npatterns={d.get("self.npatterns")} negateall={d.get("self.negateall")}: {len(apps_p)} default(s)')
+        elif apps_p:
+            v = apps_p[0][2][0] if apps_p[0][2] else None
+            splits = [e for e in p.calls_to('glob:_GlobSplit')]
+            okv = isinstance(v, Opaque) and v.tag.startswith('glob:_GlobSplit(self.stars, ') and v.tag.endswith(').split()') and len(splits) == 1 and \
+                len(splits[0][1]) == 2 and passes_through(splits[0][1][1], 'sflags', GS, decided_bits(p, 'sflags') & ~GS)
+            if not okv:
+                bad_d.append(f'default is {_tag(v)[:90]}')
+        want_n = d.get('self.nodir') is True and d.get('force_negate') is False
+        if len(apps_n) != (1 if want_n else 0) or (apps_n and apps_n[0][2] != [Opaque('self.re_no_dir')]):
+            bad_n.append(f'nodir={d.get("self.nodir")} force_negate={d.get("force_negate")}: {[a[2] for a in apps_n]}')
+        if apps_n and apps_p and p.events.index(apps_n[0]) < p.events.index(apps_p[0]):
+            pass  # order is immaterial here: the NODIR pattern does not depend on the inclusion list
+    if len(paths) < 8:
+        raise AnalysisError(f'Glob._parse_patterns: tail table has only {len(paths)} rows')
+    if 'negateall-default' in which:
+        ctx.ob(rule, 'glob:Glob._parse_patterns/negateall-default', not bad_d, repo.loc('glob', pp.node),
+               'not self.pattern and self.npatterns and self.negateall: pattern ← _GlobSplit(self.stars, self.flags | GLOBSTAR).split()',
+               f'{len(paths)} rows agree' if not bad_d else sorted(set(bad_d))[0][:200], witness="glob('!a', flags=NEGATE|NEGATEALL) lists everything but a")
+    if 'nodir-pattern' in which:
+        ctx.ob(rule, 'glob:Glob._parse_patterns/nodir-pattern', not bad_n, repo.loc('glob', pp.node),
+               'self.nodir and not force_negate: self.npatterns.append(self.re_no_dir)', f'{len(paths)} rows agree' if not bad_n else sorted(set(bad_n))[0][:200],
+               witness="glob('*', flags=NODIR) must not return directories; the exclusion pass must not add it twice")
+
+
 def rule_negateall_default(ctx: Ctx, rule: str) -> None:
     ctx.text(rule, 'NEGATEALL default: when there are exclusions and no inclusion, `**` is appended iff NEGATEALL, with GLOBSTAR added iff '
                    'PATHNAME, in translate, compile_pattern and Glob._parse_patterns alike; Glob keeps NEGATEALL in self.negateall')
     repo = ctx.repo
-    for fn in ('translate', 'compile_pattern'):
-        fi = repo.func(WP, fn)
-        q = fq(fi)
-        apps = [c for c in q.calls(lambda s: s == 'positive.append') if any(isinstance(x, ast.Name) and x.id == 'default' for x in ast.walk(c))]
-        ok = len(apps) == 1
-        det = f'{len(apps)} default append(s)'
-        if ok:
-            g = q.guards(apps[0])
-            ok = {('negative', 'T'), ('positive', 'F'), ('flags & NEGATEALL', 'T')} <= g
-            inner = [x for x in ast.walk(apps[0].args[0]) if isinstance(x, ast.Call) and norm_src(x.func) in ('WcParse', '_compile')]
-            fl = norm_src(inner[0].args[1]) if inner and len(inner[0].args) > 1 else ''
-            ok = ok and fl == 'flags | (GLOBSTAR if flags & PATHNAME else 0)'
-            det = f'guards ok={ {("negative", "T"), ("positive", "F"), ("flags & NEGATEALL", "T")} <= g }, flags={fl}'
-        ctx.ob(rule, f'{WP}:{fn}/negateall-default', ok, repo.loc(WP, apps[0] if apps else fi.node),
-               "if negative and not positive and flags & NEGATEALL: positive ← X('**', flags | (GLOBSTAR if PATHNAME))", det,
-               witness="fnmatch('b', '!a', flags=NEGATE|NEGATEALL) True; without NEGATEALL False")
-        dv = [s for s in walk_no_nested(fi.node) if isinstance(s, ast.Assign) and norm_src(s.targets[0]) == 'default']
-        okd = len(dv) == 1 and isinstance(dv[0].value, ast.IfExp) and norm_src(dv[0].value.body) == "b'**'" and norm_src(dv[0].value.orelse) == "'**'"
-        ctx.ob(rule, f'{WP}:{fn}/default-pattern', okd, repo.loc(WP, dv[0] if dv else fi.node), "b'**' if bytes else '**'", norm_src(dv[0].value) if dv else 'none')
-    pp = repo.func('glob', 'Glob._parse_patterns')
-    q = fq(pp)
-    apps = [c for c in q.calls(lambda s: s == 'self.pattern.append') if 'default' in norm_src(c)]
-    ok = len(apps) == 1 and {('self.pattern', 'F'), ('self.npatterns', 'T'), ('self.negateall', 'T')} <= q.guards(apps[0]) and \
-        norm_src(apps[0].args[0]) == '_GlobSplit(default, self.flags | GLOBSTAR).split()'
-    ctx.ob(rule, 'glob:Glob._parse_patterns/negateall-default', ok, repo.loc('glob', apps[0] if apps else pp.node),
-           'if not self.pattern and self.npatterns and self.negateall: pattern ← _GlobSplit(`**`, self.flags | GLOBSTAR)',
-           norm_src(apps[0])[:100] if apps else 'none', witness="glob('!a', flags=NEGATE|NEGATEALL) lists everything but a")
-    gi = repo.func('glob', 'Glob.__init__')
-    src = [norm_src(s) for s in walk_no_nested(gi.node) if isinstance(s, (ast.Assign, ast.AnnAssign, ast.If))]
-    okn = any(s.startswith('self.negateall') and 'bool(flags & NEGATEALL)' in s for s in src) and \
-        any(s.startswith('if self.negateall:') and 'flags ^= NEGATEALL' in s for s in src) and \
-        any(s.startswith('self.stars') and "'**'" in s for s in src)
-    ctx.ob(rule, 'glob:Glob.__init__/negateall', okn, repo.loc('glob', gi.node), 'self.negateall = bool(flags & NEGATEALL), stripped from flags', str(okn))
+    from . import pipeline
+    pipeline.rule_pipeline_tail(ctx, rule, which={'negateall-default', 'returns-pair'}, text=False)
+    parse_patterns_tail(ctx, rule, which={'negateall-default'})
+    from . import ginit
+    ginit.rule_walker_bits(ctx, rule, which={'negateall', 'walker-bits-stripped'})
+    ginit.rule_derived_attrs(ctx, rule, which={'twins'})
 
 
 def rule_evaluation_shape(ctx: Ctx, rule: str) -> None:
@@ -401,19 +403,9 @@ def rule_translate_compile_siblings(ctx: Ctx, rule: str) -> None:
                    'predicate, de-dupe, routing and forced bits, NEGATEALL default, NODIR tail) and differ only in '
                    'WcParse(p, f).parse() vs _compile(p, f) and in the one statement that adds _TRANSLATE and masks the flags')
     repo = ctx.repo
+    from . import pipeline
+    pipeline.rule_pipeline_siblings(ctx, rule)
     tr = repo.func(WP, 'translate')
-    cp = repo.func(WP, 'compile_pattern')
-    a = _alpha(tr.node, {'translate': 'SELF', '_NO_NIX_DIR': 'NODIR_NIX', '_NO_WIN_DIR': 'NODIR_WIN', 'index': 'K'})
-    b = _alpha(cp.node, {'compile_pattern': 'SELF', 'RE_NO_DIR': 'NODIR_NIX', 'RE_WIN_NO_DIR': 'NODIR_WIN', 'ptype': 'K'})
-    extra = [s for s in a if s not in b]
-    missing = [s for s in b if s not in a]
-    ok = extra == ['flags = (_TRANSLATE | flags) & FLAG_MASK'] and not missing  # operands of `|` are sorted by _alpha
-    ctx.ob(rule, f'{WP}:translate~compile_pattern', ok, repo.loc(WP, tr.node), 'identical up to the compile step and the _TRANSLATE statement',
-           'equal' if ok else f'only in translate: {[e[:70] for e in extra]}; only in compile_pattern: {[m[:70] for m in missing]}',
-           witness="translate(p) and compile(p) must route, count and default identically")
-    src = [norm_src(s) for s in walk_no_nested(tr.node) if isinstance(s, ast.Assign)]
-    mask = 'flags = (flags | _TRANSLATE) & FLAG_MASK' in src
-    ctx.ob(rule, f'{WP}:translate/adds-_TRANSLATE-and-masks', mask, repo.loc(WP, tr.node), 'flags = (flags | _TRANSLATE) & FLAG_MASK', str(mask))
     readers = []
     for m in repo.modules.values():
         for fi in m.functions.values():
@@ -430,22 +422,22 @@ def rule_marker_handling(ctx: Ctx, rule: str) -> None:
                    'self.capture; (?#) occurs in fragment constants only as the first thing inside a capturing parenthesis')
     repo = ctx.repo
     ci = repo.func(WP, 'WcParse.clean_up_inverse')
-    reps = [c for c in walk_no_nested(ci.node) if isinstance(c, ast.Call) and isinstance(c.func, ast.Attribute) and c.func.attr == 'replace' and
-            c.args and isinstance(c.args[0], ast.Constant) and c.args[0].value == '(?#)']
-    from .common import enclosing_map
-    par = enclosing_map(ci.node)
-    ok = len(reps) == 1
-    if ok:
-        cur: Any = reps[0]
-        ok = False
-        while id(cur) in par:
-            p = par[id(cur)]
-            if isinstance(p, ast.IfExp) and norm_src(p.test) == 'self.capture' and any(x is reps[0] for x in ast.walk(p.body)):
-                ok = norm_src(reps[0].args[1]) == "'?:'" and norm_src(p.orelse) == "''.join(content)" and norm_src(reps[0].func.value) == "''.join(content)"
-                break
-            cur = p
-    ctx.ob(rule, f'{WP}:WcParse.clean_up_inverse/marker-rewrite', ok, repo.loc(WP, ci.node), "''.join(content).replace('(?#)', '?:') if self.capture else ''.join(content)",
-           norm_src(reps[0])[:80] if reps else 'none', witness="translate('!(@(a))', EXTMATCH): groups inside a negation must not capture")
+    from .cextra import inverse_cleanup_table, _dec
+    from ..symeval import Tok
+    bad = []
+    n = 0
+    for p in inverse_cleanup_table(repo):
+        for e in p.of('setitem'):
+            n += 1
+            cap = _dec(p, lambda k: k == 'self.capture')
+            head = str(e[3].parts[0]) if isinstance(e[3], Tok) and e[3].parts else ''
+            rewritten = head.count(".replace('(?#)', '?:')")
+            if cap is None or rewritten != (1 if cap else 0) or head.count('.replace(') != rewritten:
+                bad.append(f'capture={cap}: {head[:80]}')
+    ctx.floor(rule, 'placeholder rewrites', n, 4)
+    ctx.ob(rule, f'{WP}:WcParse.clean_up_inverse/marker-rewrite', not bad, repo.loc(WP, ci.node),
+           "rest of the pattern has '(?#)' rewritten to '?:' exactly when self.capture", 'as expected' if not bad else bad[0],
+           witness="translate('!(@(a))', EXTMATCH): groups inside a negation must not capture")
     pr = repo.func(WP, 'WcParse._parse')
     q = fq(pr)
     strips = [c for c in walk_no_nested(pr.node) if isinstance(c, ast.Call) and isinstance(c.func, ast.Attribute) and c.func.attr == 'replace' and
@@ -581,7 +573,8 @@ def rule_magic_tables(ctx: Ctx, rule: str) -> None:
         return (frozenset(m), frozenset(d))
 
     def proj(p: Any) -> Any:
-        r = p.ret
+        from ..symeval import concrete
+        r = concrete(p.ret)
         if isinstance(r, tuple) and len(r) == 2 and all(isinstance(x, frozenset) for x in r):
             return r
         return repr(r)
